@@ -6,7 +6,7 @@ TRUST = [
 ]
 
 PROPS = {}
-HOOK_COMMITS = []
+HOOK_COMMITS = ["cb99e5e"]
 NOT_YET = {}
 
 PROPS["C14"] = {
@@ -283,5 +283,20 @@ PROPS["C02"] = {
     "units": [
         {"name": "C02", "pkg": "server", "test": "TestVerifC02",
          "quick": {"shards": 8, "checks": 25}, "thorough": {"shards": 16, "checks": 400, "timeout": 3000}},
+    ],
+}
+
+PROPS["C05"] = {
+    "level": {"quick": "exploration", "thorough": "fault_enumeration"},
+    "technique": "fault injection at named crash points (build-tag hooks) in a child process + journal-based Must/May oracle; sampled in quick, enumerated per workload in thorough",
+    "level_text": ("a workload from the C01/C08/C09 operation alphabet (appends that roll, replicated sets, truncations, retention and compaction cleans, HW moves, checkpoints, reopens) runs in a child process that is SIGKILLed by a build-tag hook at a named point between two file-system effects (log write / index write / file create / rename / remove / checkpoint replace); the child journals, before every operation, the state before it and the state predicted after it (obtained from a shadow log driven with the hooks suspended). The parent reopens what the crash left behind and checks: New succeeds; offsets strictly increase; every message equals the journalled one; Must (in both states) is a subset of what is read, which is a subset of May (in either state); HW not above the pre-crash HW; epoch history covers the newest message; and the log stays usable (appends get the next offsets, reopen/truncate/clean keep the contents consistent). quick samples one (point, occurrence) per workload; thorough enumerates every hit of every point for each workload"),
+    "level_note": "process-crash model (what was written stays; no torn writes, no power loss), crashes only at the 20 instrumented points (hooks listed in MANIFEST.hooks); index entries are written through a shared mmap, which survives SIGKILL like the page cache",
+    "rule": "rapid draws a workload of 3-22 operations, a crash-point hit selector (resolved by a counting run of the same workload) and 1-4 tail operations. Non-trivial = the kill happened inside an operation (not while opening the log). thorough (C05enum): every generated workload x every crash-point hit.",
+    "assumptions": TRUST,
+    "units": [
+        {"name": "C05", "pkg": "server/commitlog", "test": "TestVerifC05",
+         "quick": {"shards": 16, "checks": 40}, "thorough": {"skip": True}},
+        {"name": "C05enum", "pkg": "server/commitlog", "test": "TestVerifC05Enum",
+         "quick": {"skip": True}, "thorough": {"shards": 16, "checks": 120, "timeout": 3400}},
     ],
 }
